@@ -155,7 +155,7 @@ def stepConv (cx : Ctx) (rc : Recv) (op : String) (args : List String) : Option 
     -- `From<TooDeeView>` / `From<TooDeeViewMut>` (`VW.toOwned`)
     match rc with
     | .vmut v | .vsh v =>
-      match v.toOwned m data with
+      match v.toOwned m cx.capLimit data with
       | .ok t' => pure { cx.same with toks := [toString t'.numCols, toString t'.numRows, fmtList t'.data], drops := cx.dr t'.data }
       | .error e => pure (cx.fail e)
     | _ => pure cx.badOp
@@ -169,22 +169,20 @@ def stepConv (cx : Ctx) (rc : Recv) (op : String) (args : List String) : Option 
   | "vieweq", [] => pure { cx.same with toks := ["1", "hasheq=1"] }
   | _, _ => none
 
-/-- the dispatch of receiver-specific required methods -/
-def Recv.acc (m : Mode) : Recv → Res Acc
-  | .root t | .ext t => pure t.acc
-  | .vmut v | .vsh v => v.acc m
+/-- how large a sort's side table may be: `isize::MAX / 16` entries -/
+def sideLimit : Nat := 576460752303423487
 
-def Recv.swapRows (m : Mode) (rc : Recv) (buf : List Nat) (r1 r2 : Nat) : Res (List Nat) :=
-  match rc with
-  | .root t => ({ t with data := buf } : TD Nat).swapRows m r1 r2
-  | .ext t => do let a ← (Recv.ext t).acc m; a.swapRows m buf r1 r2
-  | .vmut v | .vsh v => v.swapRows m buf r1 r2
+/-- the cells of the receiver, row-major (what an overwrite of the whole receiver drops) -/
+def recvCells (m : Mode) (rc : Recv) (data : List Nat) : Res (List Nat) := do
+  let a ← rc.acc m
+  let rows ← a.rows.collect (a.rows.v.len + 2)
+  pure (rows.map (readWin data)).flatten
 
-def Recv.getRowMut (m : Mode) (rc : Recv) (r : Nat) : Res Win := rc.getUncheckedRow m r
-
+/-- in-place operations: every one goes through the Impl-model's dispatch `Recv.run` (Impl/Recv.lean) -/
 def stepInplace (cx : Ctx) (rc : Recv) (op : String) (args : List String) (robs : Option RObs) : Option MOut :=
   let m := cx.m
   let data := cx.prev.data
+  let run (mop : MOp Nat) : Res (List Nat) := rc.run m sideLimit data mop
   let fin (r : Res (List Nat)) : MOut :=
     match r with
     | .ok d => { cx.same with data := d }
@@ -199,27 +197,23 @@ def stepInplace (cx : Ctx) (rc : Recv) (op : String) (args : List String) (robs 
     let v ← nat? v
     let v := cx.v v
     match rc with
-    | .root t => pure { cx.same with data := t.fill v, drops := cx.dr (data ++ (if data.isEmpty then [v] else [])) }
+    | .root _ =>
+      match run (.fill v) with
+      | .ok d => pure { cx.same with data := d, drops := cx.dr (data ++ (if data.isEmpty then [v] else [])) }
+      | .error e => pure (cx.fail e)
     | _ =>
-      let r : Res (List Nat × List Nat) := do
-        let a ← rc.acc m
-        let d ← a.fill data v
-        let rows ← a.rows.collect (a.rows.v.len + 2)
-        pure (d, (rows.map (readWin data)).flatten)
-      match r with
+      match (do let d ← run (.fill v); let old ← recvCells m rc data; pure (d, old) : Res (List Nat × List Nat)) with
       | .ok (d, old) => pure { cx.same with data := d, drops := cx.dr (old ++ [v]) }
       | .error e => pure (cx.fail e)
   | "swap", [c1, r1, c2, r2] => do
     let c1 ← nat? c1; let r1 ← nat? r1; let c2 ← nat? c2; let r2 ← nat? r2
-    match rc with
-    | .root t => pure (fin (t.swap m c1 r1 c2 r2))
-    | _ => pure (fin (do let a ← rc.acc m; a.swap m data (c1, r1) (c2, r2)))
+    pure (fin (run (.swap c1 r1 c2 r2)))
   | "swap_rows", [r1, r2] => do
     let r1 ← nat? r1; let r2 ← nat? r2
-    pure (fin (rc.swapRows m data r1 r2))
+    pure (fin (run (.swapRows r1 r2)))
   | "swap_cols", [c1, c2] => do
     let c1 ← nat? c1; let c2 ← nat? c2
-    pure (fin (do let a ← rc.acc m; a.swapCols data c1 c2))
+    pure (fin (run (.swapCols c1 c2)))
   | "row_pair", [r1, r2] => do
     let r1 ← nat? r1; let r2 ← nat? r2
     match (do let a ← rc.acc m; a.rowPairMut m r1 r2 : Res (Win × Win)) with
@@ -231,28 +225,20 @@ def stepInplace (cx : Ctx) (rc : Recv) (op : String) (args : List String) (robs 
     let l ← parseList l
     let l := cx.vs l
     if op = "copy_from_slice" ∧ cx.elem ≠ .u32 then pure { cx.same with status := "unsupported" } else
-    let res : Res (List Nat) :=
-      match rc with
-      | .root t => t.copyFromSlice l
-      | _ => do let a ← rc.acc m; a.copyFromSlice m data l
-    match res with
+    match run (.copyFromSlice l) with
     | .ok d =>
       -- clone_from_slice: every destination cell is replaced by a clone (old one dropped); the source vec is dropped afterwards
-      let old : Res (List Nat) := do
-        let a ← rc.acc m
-        let rows ← a.rows.collect (a.rows.v.len + 2)
-        pure (rows.map (readWin data)).flatten
-      pure { cx.same with data := d, drops := cx.dr ((old.toOption.getD []) ++ l) }
+      pure { cx.same with data := d, drops := cx.dr (((recvCells m rc data).toOption.getD []) ++ l) }
     | .error e => pure { cx.fail e with drops := cx.dr l }
   | "copy_within", [c0, r0, c1, r1, dc, dr] => do
     let c0 ← nat? c0; let r0 ← nat? r0; let c1 ← nat? c1; let r1 ← nat? r1; let dc ← nat? dc; let dr ← nat? dr
     if cx.elem ≠ .u32 then pure { cx.same with status := "unsupported" } else
-    pure (fin (do let a ← rc.acc m; a.copyWithin m (rc.indexRowMut m) data (c0, r0) (c1, r1) (dc, dr)))
+    pure (fin (run (.copyWithin (c0, r0) (c1, r1) (dc, dr))))
   | "translate", [mc, mr] => do
     let mc ← nat? mc; let mr ← nat? mr
-    pure (fin (do let a ← rc.acc m; a.translateWithWrap m (rc.getRowMut m) data (mc, mr)))
-  | "flip_rows", [] => pure (fin (do let a ← rc.acc m; a.flipRows m data))
-  | "flip_cols", [] => pure (fin (do let a ← rc.acc m; a.flipCols data))
+    pure (fin (run (.translate mc mr)))
+  | "flip_rows", [] => pure (fin (run .flipRows))
+  | "flip_cols", [] => pure (fin (run .flipCols))
   | _, _ =>
     -- copy_from_toodee C R list [c0 r0 c1 r1]
     if op = "copy_from_toodee" ∨ op = "clone_from_toodee" then
@@ -261,23 +247,13 @@ def stepInplace (cx : Ctx) (rc : Recv) (op : String) (args : List String) (robs 
         let c ← nat? c; let r ← nat? r; let l ← parseList l
         let l := cx.vs l
         if op = "copy_from_toodee" ∧ cx.elem ≠ .u32 then pure { cx.same with status := "unsupported" } else
-        let src : TD Nat := ⟨l, r, c⟩
-        let sa : Res Acc :=
-          match rest.mapM nat? with
-          | some [c0, r0, c1, r1] => do let v ← VW.fromTooDee m (c0, r0) (c1, r1) src; v.acc m
-          | _ => pure src.acc
-        let res : Res (List Nat) := do
-          let sa ← sa
-          match rc with
-          | .root t => t.copyFromTooDee sa l
-          | _ => do let a ← rc.acc m; a.copyFromTooDee data sa l
-        match res with
-        | .ok d =>
-          let old : Res (List Nat) := do
-            let a ← rc.acc m
-            let rows ← a.rows.collect (a.rows.v.len + 2)
-            pure (rows.map (readWin data)).flatten
-          pure { cx.same with data := d, drops := cx.dr ((old.toOption.getD []) ++ l) }
+        let src : CopySrc Nat :=
+          { arr := ⟨l, r, c⟩,
+            window := match rest.mapM nat? with
+              | some [c0, r0, c1, r1] => some ((c0, r0), (c1, r1))
+              | _ => none }
+        match run (.copyFromTooDee src) with
+        | .ok d => pure { cx.same with data := d, drops := cx.dr (((recvCells m rc data).toOption.getD []) ++ l) }
         | .error e => pure { cx.fail e with drops := cx.dr l }
       | _ => none
     else if op.startsWith "sort_" then
@@ -288,11 +264,15 @@ def stepInplace (cx : Ctx) (rc : Recv) (op : String) (args : List String) (robs 
         let byRow := (op.splitOn "_row").length > 1
         let unstable := op.startsWith "sort_unstable"
         if !unstable then
-          if byRow then pure (fin (do let a ← rc.acc m; a.sortByRow (rc.indexRow m) data le k))
-          else pure (fin (do let a ← rc.acc m; a.sortByCol (rc.col m) (rc.swapRows m) data le k))
+          -- a comparator / key function made to panic (`!cmp:k`, `!key:k`): whether the side sort reaches its `k`-th call is
+          -- std's business, so the outcome of the side sort is a model input taken from the harness's observation
+          let side : SideSort Nat :=
+            match cx.fault, robs.map (·.status) with
+            | true, some "panic" => fun _ => throw .panic
+            | _, _ => sideStable le
+          if byRow then pure (fin (run (.sortRow side k))) else pure (fin (run (.sortCol side k)))
         else
-          -- unstable: the side sort's permutation is a model input reconstructed from the harness's observation
-          let _ := robs
+          -- unstable: the side sort's permutation is a model input reconstructed from the harness's observation (Run.lean)
           none
       | _ => none
     else none
